@@ -49,6 +49,19 @@ def entry_points(text: str):
         res["is_valid"] = (k2 == "ok" and v2 is True)
     else:
         res["validate(True)"] = res["is_valid"] = False
+    # an object built in strict mode without validation, then asked in BOTH modes (what was asked
+    # for at construction must not stick to the object), also through a copy
+    k, obj = lib.outcome(lib.BIC, text, allow_invalid=True, enforce_swift_compliance=True)
+    if k == "ok":
+        import copy as _copy
+        res["strict-built.validate(False)"] = lib.outcome(obj.validate, False)[0] == "ok"
+        res["strict-built.validate(True)"] = lib.outcome(obj.validate, True)[0] == "ok"
+        res["strict-built.validate(False) again"] = lib.outcome(obj.validate, enforce_swift_compliance=False)[0] == "ok"
+        res["copy-of-strict-built.validate()"] = lib.outcome(_copy.deepcopy(obj).validate)[0] == "ok"
+    else:
+        for n in ("strict-built.validate(False)", "strict-built.validate(True)", "strict-built.validate(False) again",
+                  "copy-of-strict-built.validate()"):
+            res[n] = False
     return res
 
 
@@ -57,6 +70,9 @@ def judge(text: str):
     exp = {"BIC(t)": rb.accept(text, False), "BIC(t,strict)": rb.accept(text, True)}
     exp["validate(True)"] = exp["BIC(t,strict)"]
     exp["is_valid"] = exp["BIC(t)"]
+    exp["strict-built.validate(False)"] = exp["strict-built.validate(False) again"] = exp["BIC(t)"]
+    exp["copy-of-strict-built.validate()"] = exp["BIC(t)"]
+    exp["strict-built.validate(True)"] = exp["BIC(t,strict)"]
     bad = [n for n in got if got[n] != exp[n]]
     if not bad:
         return True, None, None, None
@@ -109,7 +125,7 @@ def shard(args):
         part.violation("base:" + str(sig), {"kind": "bic_text", "text": base, "how": "base"}, exp, obs)
     examples = {}
     for fam, text in gen(base, tier, W):
-        part["evals"] += 4
+        part["evals"] += 8
         if text != base:
             part.foreign.add(text)
         ok, sig, exp, obs = judge(text)
@@ -177,7 +193,7 @@ def main(tier: str) -> int:
     bs = bases()
     par.run_shards(run, shard, [("after-activity", tier), ("registry", tier)] + [(b, tier) for b in bs])
     run.extra.update({"bases": bs, "alphabet_size": len(alphabet.wide(tier == "thorough")),
-                      "entry_points_per_text": 4,
+                      "entry_points_per_text": 8,
                       "iso_country_codes": len(reg.iso_countries()),
                       "deviation_bound_completed": "1 edit over W" + (
                           "; 2 substitutions over W2; tail position x W with one more over W2"
